@@ -178,15 +178,21 @@ func c10Doc(c *explore.Ctx, s *explore.SubStats, d kitDoc) {
 	if strings.Count(first, "\n") >= 2 {
 		// the default rule set after every rule was registered again under its own name
 		// (ReplaceRule keeps a rule's place): same errors, same order
-		regReset()
-		for _, r := range c18Standard {
-			validator.ReplaceRule(r.Name, r.RuleFunc)
-		}
-		after := run()
-		regReset()
-		s.Transitions++
-		if after != first {
-			bad("nondet/after-replace-rule "+c10Template(first, after), "after ReplaceRule of every rule by itself the same document gets a different error list", first, after)
+		// all of them, and single ones (a rule that is taken out and appended would change places)
+		for _, which := range []string{"", "FieldsOnCorrectType", "KnownArgumentNames", "ScalarLeafs", "ValuesOfCorrectType"} {
+			regReset()
+			for _, r := range c18Standard {
+				if which == "" || r.Name == which {
+					validator.ReplaceRule(r.Name, r.RuleFunc)
+				}
+			}
+			after := run()
+			regReset()
+			s.Transitions++
+			if after != first {
+				bad("nondet/after-replace-rule "+c10Template(first, after), "after ReplaceRule("+which+") of a rule by itself (empty: every rule) the same document gets a different error list", first, after)
+				break
+			}
 		}
 	}
 	s.Sample(func() any { return d })
